@@ -12,11 +12,15 @@
   scripted file touched); `rdAddrs`/`wrAddrs` are the byte addresses read / written, in order.
 -/
 import Fbr.Lemmas.XportSys
+import Fbr.Lemmas.XportOnce
 import Fbr.Lemmas.XportRes
-import Fbr.Thm.C17
+import Fbr.Lemmas.XportSplitWrite
+import Fbr.Lemmas.XportFuse2
+import Fbr.Lemmas.XportChain
+import Fbr.Lemmas.XportStart
 
 namespace Fbr.Thm.C04
-open Fbr.Xport Fbr.Thm.C17
+open Fbr.Xport
 
 /-! ### refinement of the cursor operations to the flat list -/
 
@@ -108,6 +112,24 @@ theorem remaining_buffers_in_bounds (st : St) (ops : List Op) (h : Start st) :
     ∧ (∀ b ∈ (exec st ops).writers, ∀ a ∈ addrs b.segs, a ∈ writable st) :=
   ⟨fun b hb => ((exec_inv ops (start_inv h)).readers b hb).1, fun b hb => ((exec_inv ops (start_inv h)).writers b hb).1⟩
 
+/-- **Every byte exactly once.**  After ANY operation list, the addresses read so far together
+    with the addresses still ahead of all readers (however split) are a permutation of the
+    readable descriptors' addresses — and likewise written/writers/writable.  Hence, when the
+    descriptors do not overlap, no byte is read twice, written twice, or both consumed and still
+    ahead of some cursor. -/
+theorem every_byte_moved_exactly_once (st : St) (ops : List Op) (h : Start st) :
+    (rdAddrs (exec st ops).w.log ++ ahead (exec st ops).readers).Perm (readable st)
+    ∧ (wrAddrs (exec st ops).w.log ++ ahead (exec st ops).writers).Perm (writable st) :=
+  exec_once ops (start_inv h) (start_once h)
+
+theorem no_byte_written_twice (st : St) (ops : List Op) (h : Start st) (hnd : (writable st).Nodup) :
+    (wrAddrs (exec st ops).w.log).Nodup ∧ (ahead (exec st ops).writers).Nodup
+      ∧ ∀ a ∈ wrAddrs (exec st ops).w.log, a ∉ ahead (exec st ops).writers := by
+  have hp := (every_byte_moved_exactly_once st ops h).2
+  have hnd' := (hp.nodup_iff).mpr hnd
+  obtain ⟨h1, h2, h3⟩ := List.nodup_append.mp hnd'
+  exact ⟨h1, h2, fun a ha hb => h3 a ha a hb rfl⟩
+
 /-! ### overflow -/
 
 /-- **Overflow fails without writing**: a `write` of more bytes than available returns an error
@@ -176,6 +198,223 @@ theorem zero_length_segments_harmless (segs : List Seg) :
     · rw [List.filter_cons_of_pos (by simp [h])]
       simp only [addrs, total, ih.1, ih.2, and_self]
 
+/-! ### content: the bytes themselves -/
+
+/-- **Byte-level refinement of `read`.**  With the buffers inside their regions, `read(buf)`
+    returns exactly the next `n` bytes of the flat content (`Spec.advance` on the flat *byte*
+    list), leaves the rest as the new content, and does not modify memory. -/
+theorem read_returns_request_bytes (b : IoBufs) (w : World) (n : Nat) (hwf : WF w.mem b.segs)
+    (hov : b.consumed + total b.segs < USIZE) :
+    let o := Reader.read b w n
+    o.aux = ((b.absBytes w.mem).advance n).1 ∧ o.b.absBytes w.mem = ((b.absBytes w.mem).advance n).2
+      ∧ o.w.mem = w.mem := by
+  intro o
+  obtain ⟨hb, hm⟩ := read_bytes b w n hwf.inMem
+  have h1 := readMany_spec b w [n] hwf.inMem hov
+  simp only [readMany, List.flatten_cons, List.flatten_nil, List.append_nil] at h1
+  obtain ⟨h1a, h1b, _⟩ := h1
+  have hlen : (flat w.mem b.segs).length = total b.segs := by
+    rw [flat_eq_map _ _ hwf.inMem]; simp
+  refine ⟨hb, ?_, hm⟩
+  simp only [IoBufs.absBytes, Spec.advance]
+  have hrest : flat w.mem (Reader.read b w n).b.segs = (flat w.mem b.segs).drop n := by
+    have e : (flat w.mem b.segs).take n ++ flat w.mem (Reader.read b w n).b.segs
+        = (flat w.mem b.segs).take n ++ (flat w.mem b.segs).drop n := by
+      rw [List.take_append_drop, ← hb]; exact h1a
+    exact List.append_cancel_left e
+  rw [hrest, h1b, hb]
+  simp [List.length_take]
+
+/-- **Reads are the request bytes, in order.**  ANY sequence of `read` calls (any buffer sizes,
+    including 0 and more than is left) over ANY buffer list: the bytes returned, concatenated in
+    call order, followed by what the reader still holds, are exactly the request — nothing
+    skipped, nothing repeated; the counter is the number of bytes handed out. -/
+theorem reads_are_request_bytes_in_order (b : IoBufs) (w : World) (ns : List Nat) (hwf : WF w.mem b.segs)
+    (hov : b.consumed + total b.segs < USIZE) :
+    (readMany b w ns).1.flatten ++ flat w.mem (readMany b w ns).2.1.segs = flat w.mem b.segs
+      ∧ (readMany b w ns).2.1.consumed = b.consumed + (readMany b w ns).1.flatten.length
+      ∧ (readMany b w ns).2.2.mem = w.mem :=
+  readMany_spec b w ns hwf.inMem hov
+
+/-- The same on addresses for EVERY reader operation (object reads, file transfers with any
+    scripted file, retry loops): each advances the cursor by some `n`, reading exactly the next
+    `n` addresses in order and leaving the rest — so over any operation list no byte is visited
+    twice or skipped.  (`Adv` is closed under sequencing: `Adv.trans`.) -/
+theorem every_reader_op_advances (b : IoBufs) (w : World) (hov : b.consumed + total b.segs < USIZE) :
+    (∀ n, Adv false false b w (Reader.readObj b w n).b (Reader.readObj b w n).w)
+    ∧ (∀ dst count at_, Adv false false b w (Reader.readTo b w dst count at_).b (Reader.readTo b w dst count at_).w)
+    ∧ (∀ fuel dst count, Adv false false b w (Reader.readExactTo fuel b w dst count).b (Reader.readExactTo fuel b w dst count).w) :=
+  ⟨fun n => readObj_adv b w n hov, fun dst count at_ => readTo_adv b w dst count at_ hov,
+   fun fuel dst count => readExactTo_adv fuel b w dst count hov⟩
+
+/-- … and EVERY writer operation likewise (with the pages of exactly those addresses marked). -/
+theorem every_writer_op_advances (b : IoBufs) (w : World) (hp : 0 < w.p) (hov : b.consumed + total b.segs < USIZE) :
+    (∀ data, Adv true true b w (VirtioW.write b w data).b (VirtioW.write b w data).w)
+    ∧ (∀ bufs, Adv true true b w (VirtioW.writeVectored b w bufs).b (VirtioW.writeVectored b w bufs).w)
+    ∧ (∀ src count at_, Adv true true b w (VirtioW.writeFrom b w src count at_).b (VirtioW.writeFrom b w src count at_).w)
+    ∧ (∀ src count, Adv true true b w (VirtioW.writeAllFrom b w src count).b (VirtioW.writeAllFrom b w src count).w) :=
+  ⟨fun d => vwrite_adv b w d hp hov, fun bufs => writeVectored_adv b w bufs hp hov,
+   fun src count at_ => writeFrom_adv b w src count at_ hp hov, fun src count => writeAllFrom_adv b w src count hp hov⟩
+
+/-- **Writes are the concatenation written.**  ANY sequence of `write` calls that fits, over ANY
+    list of pairwise non-overlapping buffers inside their regions: afterwards the writer's
+    original buffers hold exactly `data₁ ++ data₂ ++ …` followed by their old content beyond. -/
+theorem writes_are_concatenation (b : IoBufs) (w : World) (datas : List Bytes) (hp : 0 < w.p)
+    (hnd : (addrs b.segs).Nodup) (hwf : WF w.mem b.segs)
+    (hov : b.consumed + total b.segs < USIZE) (hfit : datas.flatten.length ≤ b.available) :
+    flat (writeMany b w datas).2.mem b.segs = datas.flatten ++ (flat w.mem b.segs).drop datas.flatten.length
+      ∧ (writeMany b w datas).1.consumed = b.consumed + datas.flatten.length
+      ∧ (∀ a, a ∉ (addrs b.segs).take datas.flatten.length →
+            (writeMany b w datas).2.mem.byteAt a = w.mem.byteAt a) := by
+  rw [available_eq_total] at hfit
+  obtain ⟨_, m2, _, _, m5, _⟩ := writeMany_mem b w datas hp hnd hwf.inMem hov hfit
+  exact ⟨writeMany_flat b w datas hp hnd hwf.inMem hov hfit, m5, m2⟩
+
+/-- **Split header/data writers.**  Split a writer at `k`; write any data buffers through the
+    second part, then any header buffers through the first part (all fitting): the original
+    buffers hold `header ++ (untouched rest of the first k bytes) ++ data ++ (untouched rest)`. -/
+theorem split_writers_concatenate (b a o : IoBufs) (w : World) (k : Nat) (hs : b.splitAt k = .ok (a, o))
+    (datas hdrs : List Bytes) (hp : 0 < w.p)
+    (hnd : (addrs b.segs).Nodup) (hwf : WF w.mem b.segs) (hov : b.consumed + total b.segs < USIZE)
+    (hfd : datas.flatten.length ≤ o.available) (hfh : hdrs.flatten.length ≤ a.available) :
+    flat (writeMany a (writeMany o w datas).2 hdrs).2.mem b.segs
+      = (hdrs.flatten ++ (flat w.mem a.segs).drop hdrs.flatten.length)
+        ++ (datas.flatten ++ (flat w.mem o.segs).drop datas.flatten.length) := by
+  rw [available_eq_total] at hfd hfh
+  exact split_write_flat b a o w k hs datas hdrs hp hnd hwf.inMem hov hfd hfh
+
+/-- The constructors establish the hypotheses used above: a cursor built from ANY descriptor
+    chain starts at 0, cannot overflow `usize`, keeps the descriptor lengths in order, and every
+    buffer lies inside a region of the guest memory layout. -/
+theorem constructors_establish_invariants (lay : Layout) (chain : List Desc) (wr : Bool) (b : IoBufs)
+    (h : fromChain lay chain wr = .ok b) :
+    b.consumed = 0 ∧ b.consumed + total b.segs < USIZE ∧ (∀ s ∈ b.segs, Fits lay s)
+      ∧ b.segs.map (·.len) = (chain.filter (·.writable == wr)).map (·.len) :=
+  fromChain_spec lay chain wr b h
+
+/-! ### FuseDevWriter -/
+
+/-- The `assert!(buffered || buf.is_empty())` is reachable through the public API exactly by a
+    further write on an unbuffered writer that has already written (the documented one-shot
+    rule); no other writer state panics. -/
+theorem fuse_assert_only_on_one_shot_violation (f : FuseW) (sz : Nat) (hok : f.ok) :
+    (∃ s, f.checkAvail sz = .error (.panic s)) ↔ (f.buffered = false ∧ f.len ≠ 0) :=
+  checkAvail_panics_iff f sz hok
+
+/-- `write` never reallocates the borrowed buffer and keeps `len ≤ cap` (so
+    `available_bytes = capacity - len` never underflows) — for every writer state and data. -/
+theorem fuse_never_realloc (f : FuseW) (w : World) (data : Bytes) (hok : f.ok) :
+    (FuseW.write f w data).f.ok ∧ (FuseW.write f w data).f.cap = f.cap
+      ∧ (FuseW.write f w data).res ≠ .error (.panic "realloc of borrowed buffer") :=
+  fwrite_ok f w data hok
+
+/-- `split_at(k)` fails iff `k > capacity`; otherwise the two writers own adjacent windows whose
+    capacities add up, share the bytes already written, and both are buffered. -/
+theorem fuse_split_partitions (f : FuseW) (k : Nat) (hok : f.ok) :
+    ((∃ e, f.splitAt k = .error e) ↔ f.cap < k)
+    ∧ ∀ a o, f.splitAt k = .ok (a, o) →
+        a.ok ∧ o.ok ∧ a.cap + o.cap = f.cap ∧ a.base = f.base ∧ o.base = f.base + a.cap
+          ∧ a.len + o.len = f.len ∧ a.buffered = true ∧ o.buffered = true ∧ k ≤ f.cap ∧ a.cap = k :=
+  ⟨fsplit_error_iff f k, fun a o h => fsplit_ok f a o k hok h⟩
+
+/-- A buffered write that fits appends exactly `data` to the writer's buffer, writes nothing to
+    the descriptor and touches no other byte; one that does not fit is refused. -/
+theorem fuse_buffered_write_appends (f : FuseW) (w : World) (data : Bytes) (hb : f.buffered = true) (hok : f.ok)
+    (hfit : data.length ≤ f.cap - f.len) (hin : f.inMem w.mem) :
+    (FuseW.write f w data).res = .ok data.length
+      ∧ (FuseW.write f w data).f.slice (FuseW.write f w data).w.mem = f.slice w.mem ++ data
+      ∧ (FuseW.write f w data).w.fd = w.fd
+      ∧ (∀ a : Addr, ¬ (a.1 = f.region ∧ f.base + f.len ≤ a.2 ∧ a.2 < f.base + f.len + data.length) →
+          (FuseW.write f w data).w.mem.byteAt a = w.mem.byteAt a) := by
+  obtain ⟨h1, _, h3, h4, _, h6⟩ := fwrite_buffered f w data hb hok hfit hin
+  exact ⟨h1, h3, h4, h6⟩
+
+/-- `commit(other)` issues at most one record: `self.buf ++ other.buf`. -/
+theorem fuse_commit_is_concatenation (f : FuseW) (w : World) (other : Option FuseW) (hb : f.buffered = true) :
+    ∃ r : Bytes, r = f.slice w.mem ++ (match other with | some g => g.slice w.mem | none => [])
+      ∧ (FuseW.commit f w other).1 = .ok r.length
+      ∧ (FuseW.commit f w other).2.fd = (if r.isEmpty then w.fd else w.fd ++ [r])
+      ∧ (FuseW.commit f w other).2.mem = w.mem :=
+  fcommit_spec f w other hb
+
+/-- **Split header/data writers on /dev/fuse committed together**: fresh writer, split at `k`,
+    ANY data into the second part, ANY header into the first (both fitting), `commit(second)`:
+    exactly one record reaches the descriptor and it is `header ++ data`. -/
+theorem fuse_split_header_data_one_record (f a o : FuseW) (w : World) (k : Nat) (hdr data : Bytes)
+    (hnew : f.len = 0) (hin : f.inMem w.mem) (hs : f.splitAt k = .ok (a, o))
+    (hh : hdr.length ≤ k) (hd : data.length ≤ f.cap - k) :
+    (FuseW.commit (FuseW.write a (FuseW.write o w data).w hdr).f (FuseW.write a (FuseW.write o w data).w hdr).w
+          (some (FuseW.write o w data).f)).2.fd = (if (hdr ++ data).isEmpty then w.fd else w.fd ++ [hdr ++ data]) :=
+  (fuse_split_commit f a o w k hdr data hnew hin hs hh hd).2.2.2
+
+/-! ### FileVolatileSlice -/
+
+/-- **The buffer adapter is a plain view.**  `read`/`read_slice`/`load` return the slice's bytes
+    and (by their type) cannot change it; `write`/`write_slice`/`store` replace exactly the bytes
+    addressed and keep the length; what is written is what is read back. -/
+theorem bytes_adapter_is_plain_view (sl : Bytes) (addr : Nat) :
+    -- read / read_slice
+    (∀ n, 0 < n → addr < sl.length → Adapter.read sl n addr = .ok ((sl.drop addr).take n))
+    ∧ (∀ old : Bytes, addr + old.length ≤ sl.length → 0 < old.length →
+        Adapter.readSlice sl old addr = (.ok (), (sl.drop addr).take old.length))
+    -- write / write_slice / store: length kept, exactly the addressed bytes replaced, read back
+    ∧ (∀ buf : Bytes, 0 < buf.length → addr + buf.length ≤ sl.length →
+        Adapter.write sl buf addr = .ok (writeAt sl addr buf, buf.length)
+        ∧ (writeAt sl addr buf).length = sl.length
+        ∧ (∀ i, (writeAt sl addr buf).getD i 0 = if addr ≤ i ∧ i < addr + buf.length then buf.getD (i - addr) 0 else sl.getD i 0)
+        ∧ Adapter.read (writeAt sl addr buf) buf.length addr = .ok buf
+        ∧ Adapter.writeSlice sl buf addr = (.ok [], writeAt sl addr buf))
+    ∧ (∀ val : Bytes, 0 < val.length → addr + val.length ≤ sl.length → addr % val.length = 0 →
+        Adapter.store sl val addr 0 = (.ok (), writeAt sl addr val)
+        ∧ Adapter.load (writeAt sl addr val) val.length addr 0 = .ok val) := by
+  have rb : ∀ buf : Bytes, addr + buf.length ≤ sl.length → ((writeAt sl addr buf).drop addr).take buf.length = buf := by
+    intro buf h
+    simp only [writeAt, List.append_assoc]
+    rw [List.drop_append_of_le_length (by simp; omega), List.drop_of_length_le (by simp; omega)]
+    simp
+  refine ⟨?_, ?_, ?_, ?_⟩
+  · intro n hn ha
+    simp [Adapter.read, Nat.ne_of_gt hn, Nat.not_le.mpr ha]
+  · intro old h hn
+    have h1 : ¬ (old.length = 0) := by omega
+    have h2 : ¬ (addr ≥ sl.length) := by omega
+    have hl : ((sl.drop addr).take old.length).length = old.length := by simp; omega
+    simp only [Adapter.readSlice, Adapter.read, h1, h2, if_false, hl, ne_eq, not_true_eq_false]
+    simp
+  · intro buf hn h
+    have h1 : buf.isEmpty = false := by cases buf <;> simp_all
+    have h2 : ¬ (addr ≥ sl.length) := by omega
+    have hc : min buf.length (sl.length - addr) = buf.length := by omega
+    have hw : Adapter.write sl buf addr = .ok (writeAt sl addr buf, buf.length) := by
+      simp only [Adapter.write, h1, h2, if_false, hc, List.take_length, Bool.false_eq_true]
+    refine ⟨hw, length_writeAt _ _ _ h, fun i => getD_writeAt _ _ _ h i, ?_, ?_⟩
+    · have h3 : ¬ (addr ≥ (writeAt sl addr buf).length) := by rw [length_writeAt _ _ _ h]; omega
+      simp only [Adapter.read, Nat.ne_of_gt hn, h3, if_false, rb buf h]
+    · simp only [Adapter.writeSlice, hw, ne_eq, not_true_eq_false, if_false]
+  · intro val hn h hal
+    have h1 : ¬ (addr + val.length > sl.length) := by omega
+    have h2 : ¬ ((0 + addr) % val.length ≠ 0) := by simp [hal]
+    refine ⟨by simp only [Adapter.store, h1, h2, if_false], ?_⟩
+    have h3 : ¬ (addr + val.length > (writeAt sl addr val).length) := by rw [length_writeAt _ _ _ h]; omega
+    simp only [Adapter.load, h3, h2, if_false, rb val h]
+
+/-- Accesses beyond the slice are refused and change nothing. -/
+theorem bytes_adapter_refuses_out_of_bounds (sl : Bytes) (addr : Nat) (h : sl.length ≤ addr) :
+    (∀ n, 0 < n → Adapter.read sl n addr = .error (.outOfBounds addr))
+    ∧ (∀ buf : Bytes, 0 < buf.length → Adapter.write sl buf addr = .error (.outOfBounds addr)
+        ∧ (Adapter.writeSlice sl buf addr).2 = sl)
+    ∧ (∀ val : Bytes, 0 < val.length → (Adapter.store sl val addr 0).2 = sl) := by
+  refine ⟨?_, ?_, ?_⟩
+  · intro n hn; simp [Adapter.read, Nat.ne_of_gt hn, h]
+  · intro buf hn
+    have h1 : buf.isEmpty = false := by cases buf <;> simp_all
+    have hw : Adapter.write sl buf addr = .error (.outOfBounds addr) := by
+      simp [Adapter.write, h1, h]
+    exact ⟨hw, by simp [Adapter.writeSlice, hw]⟩
+  · intro val hn
+    have : addr + val.length > sl.length := by omega
+    simp [Adapter.store, this]
+
 /-! ### non-vacuity -/
 
 example : Start exampleStart ∧ (∀ b ∈ exampleStart.readers, WF exampleStart.w.mem b.segs)
@@ -192,5 +431,26 @@ example : (⟨[⟨1, 10, 3⟩], 0⟩ : IoBufs).available < (patBytes 1 0 4).leng
 /-- `split_partitions`: a split inside a buffer after partial consumption -/
 example : ∃ a o, (⟨[⟨1, 13, 5⟩, ⟨1, 20, 0⟩, ⟨2, 0, 33⟩], 3⟩ : IoBufs).splitAt 7 = .ok (a, o) :=
   ⟨_, _, rfl⟩
+
+/-- `reads_are_request_bytes_in_order`, `writes_are_concatenation`, `split_writers_concatenate`:
+    non-overlapping buffers inside their regions (incl. a zero-length one) -/
+example : (addrs exampleStart.writers[0]!.segs).Nodup ∧ WF exampleStart.w.mem exampleStart.writers[0]!.segs
+    ∧ ∃ a o, exampleStart.writers[0]!.splitAt 16 = .ok (a, o) ∧ 16 ≤ a.available ∧ 100 ≤ o.available := by
+  refine ⟨by decide +kernel, by decide +kernel, _, _, rfl, by decide, by decide⟩
+
+/-- FuseDevWriter: a fresh writer over a 64-byte window split at 16 -/
+example : (FuseW.new 2 64 64).ok ∧ (FuseW.new 2 64 64).len = 0
+    ∧ (FuseW.new 2 64 64).inMem ⟨[(2, List.replicate 192 0)]⟩
+    ∧ ∃ a o, (FuseW.new 2 64 64).splitAt 16 = .ok (a, o) := by
+  refine ⟨by unfold FuseW.ok; decide, rfl, by unfold FuseW.inMem; decide +kernel, _, _, rfl⟩
+
+/-- `fuse_assert_only_on_one_shot_violation` is not vacuous either way: an unbuffered writer that
+    has written panics on the next write, a buffered one does not -/
+example : (∃ s, (⟨2, 64, 8, 64, false⟩ : FuseW).checkAvail 1 = .error (.panic s))
+    ∧ (⟨2, 64, 8, 64, true⟩ : FuseW).checkAvail 1 = .ok () := ⟨⟨_, rfl⟩, rfl⟩
+
+/-- a chain accepted by the constructors -/
+example : ∃ b, fromChain [(1, 4096, 8192), (2, 65536, 4096)]
+    [⟨false, 4100, 8⟩, ⟨false, 4200, 0⟩, ⟨true, 65536, 4096⟩, ⟨true, 5000, 1⟩] true = .ok b := ⟨_, rfl⟩
 
 end Fbr.Thm.C04
